@@ -2,7 +2,8 @@
    C09: non-disruptive actions run once per match; counters add up exactly. The theorems hold for
    EVERY operator semantics (op_eval), every environment, rule list and state. *)
 From Verif Require Import Base Transform Setvar SetvarProofs.
-From Coq Require Import ZArith List.
+From Coq Require Import String ZArith.
+From Coq Require Import List.
 Open Scope N_scope.
 
 (* every non-disruptive action of a link runs exactly once per value the link matched *)
